@@ -281,7 +281,7 @@ pub fn c07_step(sys: &Sys, ev0: usize, ctx: &mut Ctx) {
                     let ok_since = |from: usize| before[from..].iter().any(|e| matches!(e, Ev::Finish { t: x, code: 0, .. } if x == &d) || matches!(e, Ev::Spawn { t: x, service: true, .. } if x == &d));
                     if let Some(f) = failed_at {
                         ctx.count("watch: starts below a target whose last execution failed");
-                        if !ok_since(f) && sys.quiescent_at > f {
+                        if !ok_since(f) && sys.quiescent_before > f {
                             ctx.violation(format!("dependent-started-after-the-failure-had-propagated:{:?}<-{:?}", cfg.spec(t).kind, cfg.spec(&d).kind), format!("{} started although {} (in its dependency closure) failed, did not succeed since, and every message had been delivered in between", t, d));
                         }
                     }
@@ -383,6 +383,36 @@ pub fn c07_terminal(sys: &Sys, ctx: &mut Ctx) {
             })
             .map(|t| t.name.clone())
             .collect();
+        // "keeps watching": a change to the inputs of a target whose last execution failed leads to a new
+        // attempt (the state is quiescent and every notification of the budget has been used)
+        if !cfg.sigterm {
+            for t in &cfg.targets {
+                if t.kind == Kind::A || !t.has_input {
+                    continue;
+                }
+                let attempt = |e: &Ev| matches!(e, Ev::Spawn { t: x, .. } if x == &t.name) || matches!(e, Ev::SpawnFail { t: x } if x == &t.name);
+                // (all in the target's own history: the consumption of its last notification, its attempts)
+                let last_notify = evs.iter().rposition(|e| matches!(e, Ev::Consume { t: x, slot: Slot::Invalidation, .. } if x == &t.name));
+                let n = match last_notify {
+                    Some(n) => n,
+                    None => continue,
+                };
+                let failed_before = evs[..n].iter().rev().find_map(|e| match e {
+                    Ev::Finish { t: x, code, .. } if x == &t.name => Some(*code != 0),
+                    Ev::SpawnFail { t: x } if x == &t.name => Some(true),
+                    Ev::Spawn { t: x, service: true, .. } if x == &t.name => Some(false),
+                    _ => None,
+                });
+                if failed_before != Some(true) {
+                    continue;
+                }
+                let blocked = cfg.deps_star(&t.name).iter().any(|d| still_failed.contains(d));
+                ctx.count("watch: changes to the inputs of a target whose last execution had failed");
+                if !blocked && !evs[n..].iter().any(attempt) {
+                    ctx.violation(format!("change-to-a-failed-target's-inputs-ignored:{:?}", t.kind), format!("{}'s last execution failed, its inputs changed afterwards, no dependency of it is failed, yet it was never attempted again\n{}", t.name, observation(sys)));
+                }
+            }
+        }
         for t in &cfg.targets {
             if t.kind == Kind::A || still_failed.contains(&t.name) {
                 continue;
@@ -519,6 +549,31 @@ pub fn c11_step(sys: &Sys, ev0: usize, ctx: &mut Ctx) {
                 }
                 if !*service {
                     check_services_live(sys, before, t, "start", ctx);
+                    // watch mode: once a service has taken note that it is out of date (a change to its own inputs,
+                    // or an out-of-date notice from below) and every message has been delivered since, the builds
+                    // above it know: none of them may start before the service has restarted
+                    if cfg.watch && !before.iter().any(|e| matches!(e, Ev::RunReturned { .. } | Ev::Sigterm)) {
+                        for s in cfg.deps_star(t) {
+                            if cfg.spec(&s).kind != Kind::S {
+                                continue;
+                            }
+                            let i_live = match before.iter().rposition(|e| matches!(e, Ev::Spawn { t: x, .. } if x == &s)) {
+                                Some(i) => i,
+                                None => continue,
+                            };
+                            let noted = before.iter().enumerate().skip(i_live).find(|(_, e)| match e {
+                                Ev::Consume { t: x, slot: Slot::Invalidation, .. } => x == &s,
+                                Ev::Consume { t: x, slot: Slot::Inbox, desc } => x == &s && desc.starts_with("Invalidated"),
+                                _ => false,
+                            });
+                            if let Some((c, _)) = noted {
+                                ctx.count("watch: build starts above a service that is out of date");
+                                if sys.quiescent_before > c {
+                                    ctx.violation("build-started-while-a-restart-of-its-service-was-pending", format!("{} started although service {} (in its dependency closure) took note that it is out of date after its running instance was started, every message had been delivered since, and {} has not restarted yet", t, s, s));
+                                }
+                            }
+                        }
+                    }
                 }
             }
             Ev::Finish { t, code: 0, .. } => check_services_live(sys, before, t, "finish", ctx),
@@ -1070,6 +1125,17 @@ pub fn check_c10(rep: &mut Report) {
     }
     let out = sweep(v, &mk, dl, 3_000_000);
     fill_report(rep, &out, "exact: graphs <=2 targets, one-shot and watch, queue capacity 1 and 2 (thorough: and 64), signal injected at every state, restricted afterwards");
+    // watch mode with changes: builds are re-run and services restarted (through their own inputs and through
+    // their dependencies) before the signal; every shell ever spawned must be gone at exit
+    let mut v = vec![];
+    for c in watch_cfgs(2, 2, if rep.thorough() { 2 } else { 1 }) {
+        let mut e = c.clone();
+        e.sigterm = true;
+        e.freeze_after_exit_begins = true;
+        v.push(e);
+    }
+    let out = sweep(v, &mk, dl, 3_000_000);
+    fill_report(rep, &out, "watch, reduced: graphs <=2 targets, every leaf has inputs, 1 notification (2 thorough), signal injected at every state, restricted afterwards");
     // failure exit path
     let mut v = vec![];
     for c in &base {
@@ -1151,6 +1217,23 @@ pub fn check_c11(rep: &mut Report) {
     let v: Vec<Cfg> = watch_cfgs(2, 2, budget).into_iter().filter(has_service).collect();
     let out = sweep(v, &mk, dl, 3_000_000);
     fill_report(rep, &out, "watch, reduced: graphs <=2 targets with a service, notification budget 2 (3 thorough)");
+    // three-target chains through a service: the bottom is rebuilt (the service has to restart) while the top's
+    // own inputs change too: the top may not run across the restart
+    let mut v = vec![];
+    let chains: Vec<[Kind; 3]> = if rep.thorough() { vec![[Kind::B, Kind::S, Kind::B], [Kind::B, Kind::S, Kind::S], [Kind::S, Kind::S, Kind::B], [Kind::B, Kind::A, Kind::S]] } else { vec![[Kind::B, Kind::S, Kind::B], [Kind::B, Kind::S, Kind::S]] };
+    for kinds in chains {
+        let mut c = cfg("watch-chain", vec![t("top", kinds[0], &["mid"]), t("mid", kinds[1], &["base"]), t("base", kinds[2], &[])], &["top"]);
+        c.watch = true;
+        c.notify_budget = 2;
+        c.targets[0].has_input = true;
+        c.targets[2].has_input = true;
+        if rep.thorough() && kinds[1] != Kind::A {
+            c.targets[1].has_input = true;
+        }
+        v.push(c);
+    }
+    let out = sweep(v, &mk, dl, 3_000_000);
+    fill_report(rep, &out, "watch, reduced: chains top->mid->base through a service, two notifications (the inputs of base and of top; thorough: and of mid)");
     if rep.thorough() {
         let v: Vec<Cfg> = watch_cfgs(3, 1, 1).into_iter().filter(has_service).filter(|c| c.targets.len() == 3).collect();
         let out = sweep(v, &mk, dl, 3_000_000);
